@@ -1,6 +1,7 @@
 """C08 -- losing the connection surfaces promptly as a scrapli error.
 
-proof: coq/proofs/ConnLoss_Proofs.v over coq/model/ConnLoss.v, instantiated in props/C08.v with the configuration
+proof: coq/proofs/ConnLoss_Proofs.v over coq/model/ConnLoss.v (and ConnLossNeg_Proofs.v over ConnLossNeg.v: the writes
+inside a read, Telnet option negotiation), instantiated in props/C08.v with the configuration
 generated from the source (Gen_ConnLoss.v).  tie: (a) Gen_ConnLoss.v regenerated on every run and the
 obligations over it compiled; (b) the real transports / channels (sync and asyncio) over scripted low-level
 objects run on generated fault histories and compared with the model by vm_compute; (c) an independent oracle on
@@ -45,6 +46,11 @@ CLS_OF = {
     "ScrapliConnectionError": "SConnectionError", "ScrapliConnectionNotOpened": "SNotOpened",
     "ScrapliAuthenticationFailed": "SAuthFailed", "ScrapliTimeout": "STimeout",
 }
+# asyncssh raises a subclass of DisconnectError per SSH disconnect reason (api docs, "Exceptions"); the model knows the
+# classes that the source names: an unnamed subclass flows through the except clauses exactly as its nearest modelled
+# ancestor does (gen_connloss aborts on an except clause naming a class outside the model's universe)
+ASYNCSSH_DISCONNECTS = ["ProtocolError", "MACError", "CompressionError", "ServiceNotAvailable", "ProtocolNotSupported"]
+CLS_OF.update({n: "EDisconnectError" for n in ASYNCSSH_DISCONNECTS})
 CLS_IX = {"EException": 1, "EOSError": 2, "EConnectionError": 3, "EConnReset": 4, "EBrokenPipe": 5, "EConnRefused": 6,
           "EConnAborted": 7, "ETimeout": 8, "EGaiError": 9, "EEOFError": 10, "EIncompleteRead": 11,
           "EAttributeError": 12, "EPtyProcessError": 13, "ESSHException": 14, "EAuthException": 15,
@@ -57,7 +63,7 @@ OS_FAMILY = ["OSError", "ConnectionError", "ConnectionResetError", "BrokenPipeEr
              "ConnectionAbortedError", "TimeoutError"]
 MAY_RECV = {"telnet": ["EOFError"] + OS_FAMILY, "asynctelnet": ["EOFError", "IncompleteReadError"] + OS_FAMILY,
             "system": ["EOFError"] + OS_FAMILY, "paramiko": ["Exception", "EOFError", "SSHException"] + OS_FAMILY,
-            "asyncssh": ["DisconnectError", "ConnectionLost"] + OS_FAMILY}
+            "asyncssh": ["DisconnectError", "ConnectionLost"] + ASYNCSSH_DISCONNECTS + OS_FAMILY}
 MAY_SEND = {t: OS_FAMILY for t in ALL_TR}
 MAY_CLOSE = {"telnet": OS_FAMILY, "asynctelnet": [], "system": ["PtyProcessError"],
              "paramiko": ["EOFError", "SSHException"] + OS_FAMILY, "asyncssh": ["BrokenPipeError"]}
@@ -527,6 +533,143 @@ def chan_corpus():
 
 
 # ------------------------------------------------------------------------------------------------
+# writes inside a read: the Telnet option burst, the peer gone before (all of) the replies
+# ------------------------------------------------------------------------------------------------
+NEG_NAMES = ["do_sga", "do", "dont", "will", "wont", "will_sga", "do_naws"]
+NEG_TR = ("telnet", "asynctelnet")
+# what the send of a reply can raise: the socket anything of its family (a timeout aside: the send of three bytes does
+# not wait); an asyncio StreamWriter nothing -- it buffers, a lost connection shows at the next read (neg_may_raise)
+NEG_SEND = {"telnet": [c for c in OS_FAMILY if c != "TimeoutError"], "asynctelnet": []}
+LOGIN_AFTER = [b"\nlogin: ", b"admin\npassword: ", b"\nwelcome\nr1#"]
+
+
+def neg_burst(names):
+    from . import c08_impl
+    return c08_impl.neg_burst(names)
+
+
+def neg_names(rng, k, i=0):
+    # the four reply kinds of the handler all occur in the first positions over the sweep
+    base = ["do_sga", "will", "do", "wont", "dont"]
+    return [base[(i + j) % len(base)] if j < 2 else rng.choice(NEG_NAMES) for j in range(k)]
+
+
+def neg_loss(rng, tr, k):
+    """-> (sends, probes, drop): the k-th reply's send fails / (sync telnet) a liveness probe in the middle of the burst
+    answers dead / nothing fails before the next read"""
+    kinds = ["reply", "reply", "none"] + (["probe"] if tr == "telnet" else [])
+    what = rng.choice(kinds) if NEG_SEND[tr] else "none"
+    if what == "reply":
+        j = rng.randint(0, k - 1)
+        how = ["R", rng.choice(NEG_SEND[tr])]
+        return [["ok"]] * j + [how], [], {"reply": j + 1, "how": how}
+    if what == "probe":
+        j = rng.randint(0, 3 * k + 1)
+        pe = rng.choice([["F"]] + [["R", c] for c in MAY_PROBE[tr]])
+        return [], [["T"]] * j + [pe], {"probe": j + 1, "how": pe}
+    return [], [], {"reply": None}
+
+
+def neg_chan_cases(rng, thorough):
+    """transport level (first operation a bare read(): compared with the model, ConnLossNeg.v) and channel level
+    (Telnet login / get_prompt over the burst: oracle only)"""
+    out = []
+    n = 0
+    for tr in NEG_TR:
+        ks = [1, 2, 3, 5, 8] if not thorough else [1, 2, 3, 4, 5, 6, 7, 8, 9]
+        for k in ks:
+            fixed = [([["ok"]] * j + [["R", c]], [], {"reply": j + 1, "how": ["R", c]})
+                     for j in sorted({0, 1 % k, k - 1}) for c in (["BrokenPipeError", "ConnectionResetError"] if NEG_SEND[tr] else [])]
+            rnd = [neg_loss(rng, tr, k) for _ in range(3 if not thorough else 12)]
+            for sends, probes, drop in fixed + rnd:
+                names = neg_names(rng, k, n)
+                n += 1
+                nxt = rng.choice([[["E"]], [["E"]], [["R", rng.choice(MAY_RECV[tr])]], [D(b"\nlogin: "), ["E"]], [["B"]]])
+                tail = [dict(rng.choice(TAIL_OPS)) for _ in range(rng.choice([1, 2, 3]))]
+                out.append({"kind": "channel", "tr": tr, "To": 0.3, "Ti": rng.choice([0.15, 0.3]), "init": "open",
+                            "recvs": [D(neg_burst(names))] + nxt, "sends": sends, "probes": probes, "closes": [],
+                            "script": ["neg-read"], "fault": "neg", "neg": names, "neg_model": True, "drop": drop,
+                            "ops": [{"op": "read"}] + tail})
+        # channel level: the in-channel login / get_prompt reads over the burst
+        for i in range(6 if not thorough else 40):
+            k = rng.choice([2, 3, 5, 8])
+            names = neg_names(rng, k, i)
+            sends, probes, drop = neg_loss(rng, tr, k)
+            login = i % 3 != 2
+            chunks = LOGIN_AFTER if login else [b"\n", b"r1#"]
+            total = sum(len(c) for c in chunks)
+            d = rng.randint(0, total)
+            how = rng.choice([["E"], ["R", rng.choice([c for c in MAY_RECV[tr] if c != "TimeoutError"])]])
+            glued = rng.random() < 0.5       # the burst and the first payload arrive in one segment
+            rest = cut_stream(chunks, d)
+            first = neg_burst(names) + (rest.pop(0) if (glued and rest) else b"")
+            recvs = [D(first)] + [D(c) for c in rest] + [how]
+            ops = [{"op": "login_telnet"}, {"op": "get_prompt"}] if login else [{"op": "get_prompt"}, {"op": "send_input", "input": "showx"}]
+            To = 0.3 if tr == "telnet" else round(0.1 * (len(recvs) + len(sends) + 2) + 0.4, 2)
+            out.append({"kind": "channel", "tr": tr, "To": To, "Ti": 0.0, "init": "open", "recvs": recvs, "sends": sends,
+                        "probes": probes, "closes": [], "script": ["neg-login" if login else "neg-prompt"], "fault": "neg",
+                        "neg": names, "neg_model": False, "drop": dict(drop, byte=d, then=how), "ops": ops})
+    return out
+
+
+def neg_dopen_cases(rng, thorough):
+    """Driver.open() with in-channel Telnet authentication over the scripted socket / stream pair"""
+    out = []
+    for tr in NEG_TR:
+        for i in range(8 if not thorough else 40):
+            k = rng.choice([2, 3, 5, 8])
+            names = neg_names(rng, k, i)
+            if i < 2 and NEG_SEND[tr]:
+                how = ["R", ["BrokenPipeError", "ConnectionResetError"][i]]
+                sends, probes, drop = [["ok"]] * (1 - i) + [how], [], {"reply": 2 - i, "how": how}
+            else:
+                sends, probes, drop = neg_loss(rng, tr, k)
+            d = rng.randint(0, sum(len(c) for c in LOGIN_AFTER))
+            how = rng.choice([["E"], ["R", rng.choice([c for c in MAY_RECV[tr] if c != "TimeoutError"])]])
+            rest = cut_stream(LOGIN_AFTER, d)
+            first = neg_burst(names) + (rest.pop(0) if (rng.random() < 0.5 and rest) else b"")
+            recvs = [D(first)] + [D(c) for c in rest] + [how]
+            To = 0.4 if tr == "telnet" else round(0.1 * (len(recvs) + len(sends) + 2) + 0.4, 2)
+            out.append({"kind": "dopen", "tr": tr, "To": To, "Ti": 0.0, "recvs": recvs, "sends": sends, "probes": probes,
+                        "closes": [], "neg": names, "drop": dict(drop, byte=d, then=how),
+                        "ops": [{"op": "open"}, {"op": "get_prompt"}, {"op": "close"}, {"op": "get_prompt"}]})
+    return out
+
+
+def neg_tcp_cases(thorough):
+    """real loopback: the device sends its option burst (and a login prompt) and hangs up (FIN / RST) before a single
+    option is answered; Driver.open() with in-channel authentication"""
+    out = []
+    for tr in NEG_TR:
+        for end in ("neg_fin", "neg_rst"):
+            for names, after in ([(["do_sga", "will", "do", "wont", "do_naws"], "\r\nlogin: ")] if not thorough else
+                                 [(["do_sga", "will", "do", "wont", "do_naws"], "\r\nlogin: "), (["will", "do"], ""),
+                                  (["do", "dont", "will_sga", "wont", "do_sga", "do_naws", "will", "do"], "login: ")]):
+                out.append({"kind": "tcp", "tr": tr, "end": end, "neg": names, "after": after, "auth": True, "preopen": True,
+                            "To": 0.5, "Ti": 0.5, "fails_open": True,
+                            "ops": [{"op": "open"}, {"op": "get_prompt"}, {"op": "close"}, {"op": "get_prompt"}]})
+    return out
+
+
+def neg_case_term(case, obs):
+    assert case["recvs"][0] == D(neg_burst(case["neg"])) and case["ops"][0] == {"op": "read"}
+    codes = coq_list(["((%d, %d), (%d, %d))" % (a + b) for a, b in (obs_code(o) for o in obs)])
+    return "(%s, %d, %d, %d%%nat, %s, mkEnv %s %s %s, %s, %s)" % (
+        COQ_TR[case["tr"]], ms(case["To"]), ms(case.get("Ti", 0.0)), len(case["neg"]),
+        coq_list([coq_op(o) for o in case["ops"][1:]]),
+        coq_list([coq_wev(e) for e in case.get("sends", [])]), coq_list([coq_pev(e) for e in case.get("probes", [])]),
+        coq_list([coq_cev(e) for e in case.get("closes", [])]), coq_list([coq_rev(e) for e in case["recvs"][1:]]), codes)
+
+
+NEG_HEADER = """From Verif Require Import Bytes ConnLoss ConnLossNeg.
+From Gen Require Import Gen_ConnLoss.
+Definition chk (x : transport * N * N * nat * list op * env * list rev * list (N * N * (N * N))) : bool :=
+  let '(tr, To, Ti, k, ops, e, rs, want) := x in
+  codes_eqb (obs_codes (run_neg_ops gen_cfg (gen_ncf tr) tr To Ti k ops st_open e rs)) want.
+"""
+
+
+# ------------------------------------------------------------------------------------------------
 # oracle on the implementation's observations (independent of the model)
 # ------------------------------------------------------------------------------------------------
 CHAN_OPS = ("get_prompt", "send_input", "interact", "login_telnet", "login_ssh", "send_return")
@@ -626,6 +769,40 @@ def driver_oracle(case, res):
     return fails
 
 
+def dopen_oracle(case, res):
+    """Driver.open() (in-channel Telnet authentication) and what follows, over the scripted socket / streams"""
+    if res.get("hang"):
+        return ["the scenario never returned (a loop that cannot be interrupted): hang"]
+    if "ops" not in res:
+        return []
+    fails = []
+    tr = case["tr"]
+    lost = rlost = False
+    attached = False
+    for op, o in zip(case["ops"], res["ops"]):
+        k, out = op["op"], o["out"]
+        m = _raw_or_hang(out)
+        if m:
+            fails.append("%s: %s" % (k, m))
+        if case.get("To") and o["elapsed"] > {"open": 3, "close": 1}.get(k, 2) * case["To"] + SLACK:
+            fails.append("%s: took %.2f s with timeout_ops %.2f s" % (k, o["elapsed"], case["To"]))
+        al = o["alive"]
+        if not isinstance(al, bool) and not (al[0] == "exc" and al[2]):
+            fails.append("%s: isalive() afterwards %s" % (k, al))
+        if (o["rlost"] or (o["lost"] and tr != "asynctelnet")) and al is True:
+            fails.append("%s: isalive() is True after the connection was lost" % k)
+        if k in ("open", "get_prompt", "send_command") and not lost and o["lost"] and out[0] != "exc":
+            fails.append("%s: the connection was lost during the operation, yet it returned normally" % k)
+        if k in ("get_prompt", "send_command") and rlost and attached and out[0] != "exc":
+            fails.append("%s: returned normally on a connection whose read side is gone" % k)
+        if k in ("get_prompt", "send_command") and not attached and not (out[0] == "exc" and out[1] == "ScrapliConnectionNotOpened"):
+            fails.append("%s on a closed/never-opened connection: %s" % (k, out))
+        if k == "close" and al is not False:
+            fails.append("isalive() %s after close()" % (al,))
+        lost, rlost, attached = o["lost"], o["rlost"], o["attached"]
+    return fails
+
+
 def runtime_oracle(case, res):
     if res.get("hang"):
         return ["the scenario never returned: hang"]
@@ -681,7 +858,7 @@ def open_oracle(case, res):
     return fails
 
 
-ORACLES = {"channel": chan_oracle, "driver": driver_oracle, "open": open_oracle, "pty": runtime_oracle,
+ORACLES = {"channel": chan_oracle, "driver": driver_oracle, "dopen": dopen_oracle, "open": open_oracle, "pty": runtime_oracle,
            "tcp": runtime_oracle, "ssh": runtime_oracle}
 
 
@@ -699,8 +876,8 @@ OPEN_STEPS = {
                  ("get_pty", ["SSHException", "ChannelException", "EOFError"] + OS_FAMILY),
                  ("invoke_shell", ["SSHException", "ChannelException", "EOFError"] + OS_FAMILY)],
     "asyncssh": [("connect", ["gaierror", "DisconnectError", "ConnectionLost", "PermissionDenied", "HostKeyNotVerifiable",
-                              "KeyExchangeFailed"] + OS_FAMILY),
-                 ("open_session", ["ChannelOpenError", "DisconnectError", "ConnectionLost"] + OS_FAMILY)],
+                              "KeyExchangeFailed", "ProtocolError", "ProtocolNotSupported", "ServiceNotAvailable"] + OS_FAMILY),
+                 ("open_session", ["ChannelOpenError", "DisconnectError", "ConnectionLost", "ProtocolError"] + OS_FAMILY)],
 }
 
 
@@ -941,6 +1118,7 @@ def run(rep):
             for fault in ("read", "write"):
                 chan.append(gen_chan_case(rng, tr=tr, script=name, fault=fault))
     chan += [gen_chan_case(rng) for _ in range(n_rand)]
+    chan += neg_chan_cases(rng, thorough)      # writes inside a read: the option burst, the peer gone before the replies
     res = run_cases(chan, rep.workdir, "chan")
     for c, r in zip(chan, res):
         key = (c["tr"], tuple(c.get("script", [])), c.get("fault"), json.dumps(c.get("drop")), json.dumps(c["recvs"])[:200])
@@ -960,9 +1138,29 @@ def run(rep):
         report("conn-loss channel", chan[i], res[i], obad[i])
     mbad = None
     if model_ok:
-        okix = [i for i, r in enumerate(res) if "ops" in r]
+        okix = [i for i, r in enumerate(res) if "ops" in r and not chan[i].get("neg")]
         terms = [chan_case_term(chan[i], res[i]["ops"]) for i in okix]
         mb, log = common.eval_cases(rep.workdir, "cases_c08_chan", CHAN_HEADER, terms, "chk")
+        # the reads over an option burst: ConnLossNeg.v
+        nix = [i for i, r in enumerate(res) if "ops" in r and chan[i].get("neg_model")]
+        nb, nlog = common.eval_cases(rep.workdir, "cases_c08_neg", NEG_HEADER, [neg_case_term(chan[i], res[i]["ops"]) for i in nix], "chk")
+        if nb is None:
+            rep.broken.append("correspondence conn-loss negotiation (model evaluation failed)")
+            rep.notes.append(nlog)
+        else:
+            def neg_differs(c, r):
+                if "ops" not in r:
+                    return ["no result"]
+                b2, _ = common.eval_cases(rep.workdir, "cases_c08_nre", NEG_HEADER, [neg_case_term(c, r["ops"])], "chk")
+                return ["model differs"] if b2 else []
+            nbad = _confirm(rep, chan, [nix[b] for b in nb], "chan_n", neg_differs) if nb else {}
+            dist["channel"]["neg_model_cases"] = len(nix)
+            dist["channel"]["neg_model_disagreements"] = len(nbad)
+            for i in sorted(nbad)[:5]:
+                if i in obad:
+                    continue
+                rep.broken.append("correspondence conn-loss: model and implementation disagree on a read over an option burst")
+                rep.notes.append("disagreement: %s -> %s" % (json.dumps(chan[i])[:1500], json.dumps([[o["out"], o["alive"]] for o in res[i]["ops"]])))
         if mb is None:
             rep.broken.append("correspondence conn-loss (model evaluation failed)")
             rep.notes.append(log)
@@ -1024,15 +1222,16 @@ def run(rep):
         rep.broken.append("driver suite: the nominal session did not run")
         drv, dres = [], []
     else:
-        drv = [c for _, c in fcases if c["kind"] == "driver"] + driver_cases(rng, thorough, min(lens), min(nws))
+        drv = [c for _, c in fcases if c["kind"] in ("driver", "dopen")] + driver_cases(rng, thorough, min(lens), min(nws)) \
+            + neg_dopen_cases(rng, thorough)
         dres = run_cases(drv, rep.workdir, "drv")
         for c, r in zip(drv, dres):
-            rep.case(("driver", c["tr"], json.dumps(c.get("drop")), json.dumps(c.get("chunk"))),
-                     nontrivial=any(o.get("dropped") for o in r.get("ops", [])))
-            dk = "%s/%s" % (c["tr"], "byte" if "byte" in (c.get("drop") or {}) else "write")
+            rep.case(("driver", c["kind"], c["tr"], json.dumps(c.get("drop")), json.dumps(c.get("chunk")), json.dumps(c.get("neg"))),
+                     nontrivial=any(o.get("dropped") or o.get("lost") for o in r.get("ops", [])))
+            dk = "%s/%s" % (c["tr"], "neg-open" if c["kind"] == "dopen" else "byte" if "byte" in (c.get("drop") or {}) else "write")
             dist["driver"][dk] = dist["driver"].get(dk, 0) + 1
         db = _judge(drv, dres)
-        db = _confirm(rep, drv, sorted(db), "drv_o", lambda c, r: ORACLES["driver"](c, r), dres)
+        db = _confirm(rep, drv, sorted(db), "drv_o", lambda c, r: ORACLES[c["kind"]](c, r), dres)
         for i in sorted(db)[:5]:
             report("conn-loss driver", drv[i], dres[i], db[i])
         dist["driver"]["stream_len"] = min(lens)
@@ -1044,10 +1243,11 @@ def run(rep):
 
     phase("driver")
     # 5. the real thing: pty child, loopback sockets, loopback ssh
-    rt = [c for _, c in fcases if c["kind"] in ("pty", "tcp", "ssh")] + runtime_cases(thorough)
+    rt = [c for _, c in fcases if c["kind"] in ("pty", "tcp", "ssh")] + runtime_cases(thorough) + neg_tcp_cases(thorough)
     rres = run_cases(rt, rep.workdir, "rt", jobs=6)
     for c, r in zip(rt, rres):
-        rep.case(("rt", c["kind"], c.get("tr"), c.get("end"), c.get("stage"), len(c["ops"]), c.get("sigchld_ignored")))
+        rep.case(("rt", c["kind"], c.get("tr"), c.get("end"), c.get("stage"), len(c["ops"]), c.get("sigchld_ignored"),
+                  json.dumps(c.get("neg"))))
         dk = "%s/%s" % (c["kind"], c.get("tr", "system"))
         dist["runtime"][dk] = dist["runtime"].get(dk, 0) + 1
     rb = _judge(rt, rres)
@@ -1075,7 +1275,7 @@ def run(rep):
     }
     rep.coverage["generated_from"] = common.source_hashes(SOURCES)
     rep.coverage["generated"] = {k: v for k, v in info.items() if k in ("login_sync", "login_async", "login_async_sleeps",
-                                                                      "chan_loops_try_free", "sock_alive", "sock_shutdown")}
+                                                                      "chan_loops_try_free", "sock_alive", "sock_shutdown", "negotiation")}
     rep.coverage["wall_parts_s"] = phases
     rep.rule = ("channel suite: every transport x every scripted operation (get_prompt, send_input, send_inputs_interact, telnet/ssh "
                 "in-channel login, bare read/write) x a read fault (EOF / each documented exception / silence) at a random byte "
@@ -1084,7 +1284,13 @@ def run(rep):
                 "offsets); open(): every library step x every documented exception; drivers: IOS-XE session (open, get_prompt, "
                 "send_command, send_configs, send_interactive, close) over the simulated and the five real transports with the "
                 "session dropping at sampled (thorough: all) byte offsets and writes; runtime: pty child / loopback TCP / loopback "
-                "ssh ending the session mid-way.  non-trivial = a loss was met (or the transport was not open); distinct = "
+                "ssh ending the session mid-way; writes inside a read (Telnet option negotiation, both Telnet transports): the "
+                "device's opening burst of 1..8 (thorough ..9) IAC requests of all four reply kinds, then the send of the k-th reply "
+                "failing with each class of the socket family / a liveness probe answering dead in the middle of the burst / the "
+                "next read ending in EOF, an exception, data or silence -- at transport level (bare read(), compared with the "
+                "model), through the in-channel Telnet login and get_prompt, through (Async)GenericDriver.open() with in-channel "
+                "authentication over the scripted socket / stream pair, and on real loopback sockets (burst, login prompt, FIN or "
+                "RST before a single option is answered).  non-trivial = a loss was met (or the transport was not open); distinct = "
                 "(transport, script, fault, history)")
     rep.extra_assumptions += [
         "library model of coq/model/ConnLoss.v (sticky EOF / sticky loss exceptions / liveness probes answer dead after a loss; "
@@ -1111,7 +1317,10 @@ def replay(path):
         from gen import gen_connloss
         gen_connloss.generate(wd)
         common.coqc(os.path.join(wd, "Gen_ConnLoss.v"), wd)
-        b, _ = common.eval_cases(wd, "cases_c08_replay", CHAN_HEADER, [chan_case_term(c, res["ops"])], "chk")
+        if c.get("neg"):
+            b = common.eval_cases(wd, "cases_c08_replay", NEG_HEADER, [neg_case_term(c, res["ops"])], "chk")[0] if c.get("neg_model") else []
+        else:
+            b, _ = common.eval_cases(wd, "cases_c08_replay", CHAN_HEADER, [chan_case_term(c, res["ops"])], "chk")
         if b:
             fails.append("model and implementation disagree")
     if fails:
@@ -1137,21 +1346,38 @@ MANIFEST = {
             "without timeout_ops > 0 is refuted (C08_full_refuted: timeout_ops = 0 disables the backstop). The theorems are "
             "instantiated with the configuration generated from the source on every run (Gen_ConnLoss.v: the try/except/suppress "
             "tables around every low-level call, guards, EOF handling, isalive(), the login loops' except clauses, the real "
-            "subclass relation), whose well-formedness is recomputed by vm_compute. Tie (b): the real transports and channels "
+            "subclass relation), whose well-formedness is recomputed by vm_compute. The writes INSIDE a read are part of it: "
+            "C08_negotiation_replies (model ConnLossNeg.v) -- read() of either Telnet transport over an opening burst of any "
+            "number of option requests, for every outcome of every reply's send and every liveness-probe answer in between "
+            "(sync telnet probes the socket once per byte), ends normally, waiting, or in a ScrapliException subclass, and leaves a "
+            "state the main theorems apply to; instantiated with the reply-site facts generated from the source (every send / "
+            "write call reachable from read(), the try/except tables between a reply's low-level send and the caller of read(), "
+            "whether the handler's guard is a liveness probe), checked by vm_compute (C08_negotiation_config_ok). Tie (b): the real transports and channels "
             "(sync and asyncio) over scripted sockets / stream readers / pty / paramiko / asyncssh objects run on ~1500 (thorough "
             "~5000) generated fault histories and must agree with the model evaluated by vm_compute; open() of every transport "
             "with every library step failing. Tie (c): an independent oracle (exception class, latency <= timeout + 1 s, isalive() "
             "afterwards, later operations, hangs detected by a watchdog process) on those runs, on whole IOS-XE driver sessions over "
             "the simulated and the five real transports with the session dropping at sampled (thorough: every) byte offsets and "
             "writes, and on a real pty child, real loopback sockets (FIN / RST / half-close) and real ssh sessions (paramiko, "
-            "asyncssh, ssh binary) ended mid-way by an in-process asyncssh server.",
+            "asyncssh, ssh binary) ended mid-way by an in-process asyncssh server. Option-burst scenarios (the peer gone between "
+            "its opening burst and the replies: the k-th reply's send raising EPIPE / ECONNRESET / ..., a probe answering dead "
+            "mid-burst) run at transport level (compared with ConnLossNeg.v by vm_compute), through the in-channel login, "
+            "through Driver.open() with in-channel authentication, and on real loopback sockets (burst + FIN / RST). The read "
+            "alphabet of the asyncssh stub also contains the DisconnectError subclasses asyncssh raises per disconnect reason "
+            "(ProtocolError, MACError, CompressionError, ServiceNotAvailable, ProtocolNotSupported), treated by the model as "
+            "their modelled ancestor DisconnectError.",
     "note": "Partial: what the OS and the libraries raise, and that their liveness indicators answer dead after a loss, is a "
             "hand-written library model (may_raise / open_may_raise / sticky EOF and errors in coq/model/ConnLoss.v), confronted "
             "with reality only by the pty / loopback scenarios; wall-clock latency and the timeout decorator's mechanics are "
             "observed (C07 proves the decorator), not proved: the model turns 'blocks' / 'retries for ever' into ScrapliTimeout "
             "when a timeout is armed. timeout_ops = 0 (no timeout) is outside the property by definition. PtyProcess internals "
             "(spawn failures; isalive() waits for a child that closed its pty but lives on) and bare transport.read() with no "
-            "transport timeout are outside. Driver-level runs are oracle-only (pattern matching is C01's). Section variables: none; "
+            "transport timeout are outside. Driver-level runs are oracle-only (pattern matching is C01's). Option negotiation: "
+            "the model covers read() over a burst of complete IAC requests arriving alone in one segment, on a session with fewer "
+            "than ten options answered (after that the transports stop parsing); bursts glued to payload, the login / get_prompt "
+            "/ Driver.open() / loopback runs over a burst are oracle-only; that an asyncio StreamWriter's write() never raises for "
+            "a lost connection (so the asynctelnet replies have no exception table and need none) is part of the library model "
+            "(neg_may_raise), a reply's send timing out is not generated. Section variables: none; "
             "hypotheses of the theorems: cfg_ok (computed on the generated configuration), env_ok / rs_ok (events within the "
             "library contract), matchers reject the empty buffer.",
     "technique": "Coq proofs by induction over the list of low-level read events and over operation histories, with a state "
